@@ -276,6 +276,27 @@ def h_tiny(E, idx):
     return 'ok'
 
 
+SI = {'k': 1e3, 'M': 1e6, 'G': 1e9, 'T': 1e12, 'm': 1e-3, 'u': 1e-6, 'n': 1e-9, 'p': 1e-12, '%': 0.01}
+
+
+def h_suffix_table(E, suffix):
+    """the metric suffixes and the percent sign multiply by their SI values: x followed by the suffix equals x times 10^k for a symbolic mantissa
+    rendered as a literal (the table itself is data the solver cannot see, so each entry is pinned here)"""
+    from mitxgraders.helpers.calc.expressions import evaluator, DEFAULT_FUNCTIONS
+    from mitxgraders.helpers.calc.mathfuncs import METRIC_SUFFIXES, DEFAULT_SUFFIXES
+    import mitxgraders as m
+    table = dict(DEFAULT_SUFFIXES, **METRIC_SUFFIXES)
+    E.check('suffix-has-its-SI-value', suffix in table and table[suffix] == SI[suffix])
+    E.check('no-other-suffixes', set(table) == set(SI))
+    x = E.real('x', -3, 3)
+    got, _ = evaluator('x*3%s + 2%s' % (suffix, suffix), {'x': x}, DEFAULT_FUNCTIONS, table)
+    # the code multiplies literal and suffix as doubles first
+    E.check('suffix-multiplies-the-literal', near_eq(got, x * (3 * SI[suffix]) + (2 * SI[suffix])))
+    g = m.NumericalGrader(answers=repr(5 * SI[suffix]), metric_suffixes=True, tolerance=1e-15 * SI[suffix])
+    E.check('graders-use-the-same-table', g(None, '5' + suffix)['ok'] is True)
+    return 'ok'
+
+
 def h_undefined(E, name):
     from mitxgraders.helpers.calc.expressions import evaluator, DEFAULT_FUNCTIONS, DEFAULT_SUFFIXES
     from mitxgraders.helpers.calc.exceptions import UndefinedVariable, UndefinedFunction
@@ -612,6 +633,8 @@ def harnesses(tier):
             hs[-1].params = (lit.strip(), suf)
     for form in ('sum', 'constants', 'mixed'):
         add(h_names, 'names', dict(form=form), '10 symbolic variables with confusable names')
+    for sfx in SI:
+        add(h_suffix_table, 'suffix_table', dict(suffix=sfx), 'symbolic factor')
     for i in range(len(TINY)):
         add(h_tiny, 'tiny', dict(i=i), TINY[i][0], validate=False)
     for i in range(len(FUNC_POW)):
